@@ -24,6 +24,7 @@ import (
 	"net"
 	"os"
 	"os/exec"
+	"runtime"
 	"runtime/metrics"
 	"sort"
 	"strings"
@@ -83,15 +84,52 @@ func cpuNow() time.Duration {
 }
 
 const (
-	evictCPUBudget  = 2500 * time.Millisecond // non-GC process CPU spent inside one command before it counts as a hang
-	evictPollBudget = 4000                    // polls of >= 0.5 ms completed by this process while the command made no progress
-	evictChildSeqs  = 40                      // sequences per child process (every instance leaks its ticker goroutine and its heap)
-	evictWallBudget = 180 * time.Second       // fallback for a blocked (not spinning) command
+	evictCPUBudget  = 4 * time.Second   // non-GC process CPU spent inside one command before it counts as a (spinning) hang
+	evictWallBudget = 180 * time.Second // last resort
+	evictChildSeqs  = 40                // sequences per child process (every instance leaks its ticker goroutine and its heap)
 )
 
-// waitFor polls cond; false = the budget was exhausted (hang).
-func waitFor(cond func() bool, cpu0 time.Duration, t0 time.Time) bool {
+// waitingStates are goroutine states in which a goroutine cannot make progress by itself.
+var waitingStates = map[string]bool{"semacquire": true, "sync.Mutex.Lock": true, "sync.RWMutex.Lock": true, "sync.RWMutex.RLock": true,
+	"chan send": true, "chan receive": true, "select": true, "sync.WaitGroup.Wait": true, "sleep": true, "sync.Cond.Wait": true,
+	"chan send (nil chan)": true, "chan receive (nil chan)": true, "select (no cases)": true}
+
+// serverBusy reports whether some goroutine executing code of the server under test is running, runnable or in any
+// state other than a plain lock / channel / sleep wait (e.g. inside a forced garbage collection).
+func serverBusy() bool {
+	buf := make([]byte, 4<<20)
+	n := runtime.Stack(buf, true)
+	for _, blk := range strings.Split(string(buf[:n]), "\n\n") {
+		if !strings.Contains(blk, "sugardb.(*SugarDB)") {
+			continue
+		}
+		hdr := blk
+		if i := strings.IndexByte(hdr, '\n'); i >= 0 {
+			hdr = hdr[:i]
+		}
+		i, j := strings.IndexByte(hdr, '['), strings.LastIndexByte(hdr, ']')
+		if i < 0 || j < i {
+			return true
+		}
+		st := hdr[i+1 : j]
+		if k := strings.IndexByte(st, ','); k >= 0 {
+			st = st[:k]
+		}
+		if !waitingStates[st] {
+			return true
+		}
+	}
+	return false
+}
+
+// waitFor polls cond; "" = cond became true, otherwise the reason the command counts as hung:
+//
+//	spin:    more than evictCPUBudget of non-GC process CPU was burnt inside this one command;
+//	blocked: for a while no goroutine of the server could run at all (every one of them parked on a lock, a channel or
+//	         a sleep), confirmed on consecutive goroutine dumps — wall time alone never decides.
+func waitFor(cond func() bool, cpu0 time.Duration, t0 time.Time) string {
 	n := 0
+	idle := 0
 	for !cond() {
 		n++
 		if n < 200 {
@@ -100,16 +138,25 @@ func waitFor(cond func() bool, cpu0 time.Duration, t0 time.Time) bool {
 			time.Sleep(500 * time.Microsecond)
 		}
 		if n%64 == 0 {
-			if cpuNow()-cpu0 > evictCPUBudget || time.Since(t0) > evictWallBudget {
-				return false
+			if c := cpuNow() - cpu0; c > evictCPUBudget {
+				return fmt.Sprintf("spin cpu=%v wall=%v", c, time.Since(t0))
+			}
+			if time.Since(t0) > evictWallBudget {
+				return fmt.Sprintf("wall %v", time.Since(t0))
 			}
 		}
-		// a blocked (not spinning) command burns no CPU: count the polls this process got to run instead of wall time
-		if n > evictPollBudget {
-			return false
+		if n > 1000 && n%100 == 0 {
+			if serverBusy() {
+				idle = 0
+			} else {
+				idle++
+				if idle >= 6 {
+					return fmt.Sprintf("blocked wall=%v", time.Since(t0))
+				}
+			}
 		}
 	}
-	return true
+	return ""
 }
 
 func (in *Inst) evictDump() (string, error) {
@@ -252,7 +299,7 @@ func evictChildRun(w *bufio.Writer, seqs []Seq, from int) error {
 			}()
 			var res Result
 			got := false
-			ok := waitFor(func() bool {
+			why := waitFor(func() bool {
 				select {
 				case res = <-done:
 					got = true
@@ -260,11 +307,11 @@ func evictChildRun(w *bufio.Writer, seqs []Seq, from int) error {
 				}
 				return got
 			}, cpu0, t0)
-			if ok && res.Kind != "panic" {
-				ok = waitFor(ctl.quiet, cpu0, t0)
+			if why == "" && res.Kind != "panic" {
+				why = waitFor(ctl.quiet, cpu0, t0)
 			}
-			if !ok {
-				fmt.Fprintf(w, " R hang x E -\n")
+			if why != "" {
+				fmt.Fprintf(w, " R hang %s E -\n", X(why))
 				w.Flush()
 				os.Exit(3)
 			}
